@@ -138,3 +138,38 @@ func (monC18) PostCall(s *Sim, c *Call) {
 	}
 	s.Violate("C18", "applied", "unknown", "%s applied setting %s which it did not list", t.Label(), name)
 }
+
+// A setting whose conflict check could not be made (the node list failed) must not come out valid.
+func (monC18) TaskEnd(s *Sim, t *Task) {
+	if t.Ctrl != CtrlSetting || t.Crashed {
+		return
+	}
+	nodeListFailed := false
+	var write *Call
+	for _, c := range t.Calls {
+		if c.Verb == "list" && c.Kind == KNode && c.Err != nil {
+			nodeListFailed = true
+		}
+		if c.Verb == "updatestatus" && c.Kind == KSetting {
+			write = c
+		}
+	}
+	if !nodeListFailed {
+		return
+	}
+	s.Stats.NonVacuous["C18.node-list-failed"]++
+	if write != nil && !write.Applied() {
+		return // the verdict could not be written either
+	}
+	var st edsv1.ExtendedDaemonsetSetting
+	if write != nil && write.Out != nil {
+		decodeInto(write.Out, &st)
+	} else if b, err := s.Store.Get(KSetting, t.Key.Namespace, t.Key.Name); err == nil {
+		decodeInto(b, &st)
+	} else {
+		return
+	}
+	if st.Status.Status == edsv1.ExtendedDaemonsetSettingStatusValid {
+		s.Violate("C18", "unchecked-valid", "", "%s could not list the nodes but left the setting valid (error %q)", t.Label(), st.Status.Error)
+	}
+}
